@@ -90,6 +90,23 @@ CLAIMED = {
         "technique": "Lean 4 proof (decision table by case analysis over an unbounded status) + generated status sets "
                      "+ exhaustive correspondence",
     },
+    "C10": {
+        "text": "Lean theorems over the selector model: selection_sound (for every WSDL shape, option setting and "
+                "selector expression of any length a successful selection names a declared service, a port of THAT "
+                "service and an operation of THAT port - no fall-through; an error carries no endpoint); unknown "
+                "names / out-of-range indexes give ServiceNotFound / PortNotFound / MethodNotFound; a default port "
+                "overrides every port subscript; single-service and default-service pass-through; attribute access "
+                "uses first service / first port. Tied to suds/client.py selectors and wsdl.py (non-SOAP ports "
+                "discarded, per-port method table) by invoking every selected method on real clients against a "
+                "recording transport and comparing URL, SOAPAction and body wrapper with the model over generated "
+                "WSDLs (0..3 services x 0..3 ports, two SOAP bindings and a non-SOAP one) x expressions of depth <= 3 "
+                "x option settings; location override checked to be local to its client.",
+        "design_ref": "DESIGN.md section 6 C10",
+        "note": "negative indexes follow Python list semantics (modelled); location-override locality is checked on "
+                "the implementation, its proof is the options theorem of C14.",
+        "technique": "Lean 4 proof (invariant by induction over the selector steps) + differential correspondence "
+                     "on generated WSDLs",
+    },
 }
 
 NOT_YET = "check not built yet in this round (design in DESIGN.md section 6); not claimed"
